@@ -290,6 +290,54 @@ def check_tool_paths(ctx, tool):
                    'which GenericCheck turns into the text `None` - that '
                    'matches a null target attribute, whereas credentials '
                    'without the key deny' % (U(ev.node.slice), why))
+        # ---- the is_admin credential is the tool's own is_admin argument
+        if evals and 'is_admin' in tool.params:
+            cr0 = evals[0][1].node.args[1] if len(
+                evals[0][1].node.args) > 1 else None
+            for k in evals[0][1].node.keywords:
+                if k.arg == 'creds':
+                    cr0 = k.value
+            vals = []
+            for ev in p.events[:evals[0][0]]:
+                if cr0 is not None and ev.kind == 'store' and isinstance(
+                        ev.node, ast.Subscript) and U(ev.node.value) == U(
+                            cr0) and is_const(ev.node.slice, 'is_admin'):
+                    vals.append((ev.line, en.expand(ev.value)))
+                # creds.update({... 'is_admin': v ...}) / update(is_admin=v)
+                if cr0 is not None and ev.kind == 'call' and method_call(
+                        ev.node, 'update') and U(method_call(
+                            ev.node)[0]) == U(cr0):
+                    for a_ in ev.node.args:
+                        a_ = en.expand(a_)
+                        if isinstance(a_, ast.Dict):
+                            for k_, v_ in zip(a_.keys, a_.values):
+                                if k_ is not None and is_const(k_,
+                                                               'is_admin'):
+                                    vals.append((ev.line, en.expand(v_)))
+                    for k_ in ev.node.keywords:
+                        if k_.arg == 'is_admin':
+                            vals.append((ev.line, en.expand(k_.value)))
+            d0 = en.defs.get(cr0.id) if isinstance(cr0, ast.Name) else cr0
+            if isinstance(d0, ast.Call) and isinstance(d0.func, ast.Name) \
+                    and d0.func.id == 'dict':
+                for k in d0.keywords:
+                    if k.arg == 'is_admin':
+                        vals.append((getattr(d0, 'lineno', evals[0][1].line),
+                                     en.expand(k.value)))
+            okv = bool(vals) and isinstance(vals[-1][1], ast.Name) and \
+                vals[-1][1].id == 'is_admin'
+            if not vals:
+                ctx.assume('C19.CREDS: where the credentials get is_admin '
+                           'was not found on the paths; not decided')
+                okv = True
+            ob('C19.CREDS', okv, vals[-1][0] if vals else evals[0][1].line,
+               'credential is_admin = %s' % (U(vals[-1][1]) if vals
+                                             else 'not set'),
+               'the tool\'s is_admin argument' if okv else
+               'the credentials\' is_admin is %s, not the is_admin argument '
+               'the tool was called with: policies that consult it (directly '
+               'or through the default rule) get a different verdict from '
+               'the library' % (U(vals[-1][1]) if vals else 'never set'))
         # ---- each evaluation: roles, polarity, target
         for i, e, name, how in evals:
             n_eval += 1
